@@ -200,6 +200,7 @@ type Trace struct {
 	Probe       *ProbeRec     `json:"probe,omitempty"`
 	Fcx         *FcxResult    `json:"fcx,omitempty"`
 	Par         *ParResult    `json:"par,omitempty"`
+	StressReg   *StressRegResult `json:"stress_reg,omitempty"`
 	Reg         []*RegObs     `json:"reg,omitempty"`
 	Deadlock    string        `json:"deadlock,omitempty"` // bubble deadlock panic text on exit
 	Aborted     string        `json:"aborted,omitempty"`
